@@ -38,4 +38,38 @@ pub open spec fn fc(instrs: Seq<Instruction>, n: Names, line: int, end_index: in
 /// all spellings of a command: every alias and the full name
 pub open spec fn spellings<C: crate::duckscript::types::command::Command>(c: C) -> Seq<String> { c.spec_aliases().push(c.spec_name()) }
 pub open spec fn same_members(a: Seq<String>, b: Seq<String>) -> bool { forall|s: String| #[trigger] a.contains(s) <==> b.contains(s) }
+pub open spec fn names_equiv(a: Names, b: Names) -> bool {
+    same_members(a.start, b.start) && same_members(a.middle, b.middle) && same_members(a.end, b.end)
+    && same_members(a.start_blocks, b.start_blocks) && same_members(a.end_blocks, b.end_blocks) && a.recursive == b.recursive
+}
+/// the scan only asks whether a command name is in a list, so lists with the same members give the same answer
+pub proof fn lemma_fc_members(instrs: Seq<Instruction>, a: Names, b: Names, line: int, end_index: int, skip_to: int, delta: int, middle: Seq<usize>)
+    requires names_equiv(a, b)
+    ensures fc(instrs, a, line, end_index, skip_to, delta, middle) == fc(instrs, b, line, end_index, skip_to, delta, middle)
+    decreases end_index - line
+{
+    if line >= end_index || line < 0 || end_index > instrs.len() { }
+    else if line < skip_to { lemma_fc_members(instrs, a, b, line + 1, end_index, skip_to, delta, middle); }
+    else {
+        match command_at(instrs, line) {
+            None => { lemma_fc_members(instrs, a, b, line + 1, end_index, skip_to, delta, middle); }
+            Some(c) => {
+                if a.start_blocks.contains(c) { lemma_fc_members(instrs, a, b, line + 1, end_index, skip_to, delta + 1, middle); }
+                else if a.middle.contains(c) { lemma_fc_members(instrs, a, b, line + 1, end_index, skip_to, delta, middle.push(line as usize)); }
+                else if a.end_blocks.contains(c) && delta > 0 { lemma_fc_members(instrs, a, b, line + 1, end_index, skip_to, delta - 1, middle); }
+                else if a.end.contains(c) { }
+                else if a.start.contains(c) {
+                    if a.recursive {
+                        lemma_fc_members(instrs, a, b, line + 1, end_index, line + 1, 0, Seq::empty());
+                        match fc(instrs, a, line + 1, end_index, line + 1, 0, Seq::empty()) {
+                            Ok((_, e)) => { lemma_fc_members(instrs, a, b, line + 1, end_index, e + 1, delta, middle); }
+                            Err(_) => {}
+                        }
+                    }
+                }
+                else { lemma_fc_members(instrs, a, b, line + 1, end_index, skip_to, delta, middle); }
+            }
+        }
+    }
+}
 } // mod bspec
